@@ -27,6 +27,8 @@ fn usage() -> ! {
 }
 
 fn main() {
+    // the vendored tokio runs spawn_blocking jobs synchronously (vendor/tokio/RLSIM_PATCH.md)
+    unsafe { std::env::set_var("RLSIM_INLINE_BLOCKING", "1") };
     let args: Vec<String> = std::env::args().collect();
     let a = |i: usize| args.get(i).map(|s| s.as_str());
     match a(1) {
@@ -94,9 +96,13 @@ fn main() {
             }
         }
         Some("one") => {
-            let (Some(id), Some(seed)) = (a(2), a(3).and_then(|s| s.parse::<u64>().ok())) else {
-                usage()
-            };
+            // the seed itself, or `i<n>` = the seed of run number n of a check (VERIF_SEED base)
+            let base: u64 = std::env::var("VERIF_SEED").ok().and_then(|s| s.parse().ok()).unwrap_or(1);
+            let seed = a(3).and_then(|s| match s.strip_prefix('i') {
+                Some(n) => n.parse::<u64>().ok().map(|n| rng::run_seed(base, n)),
+                None => s.parse::<u64>().ok(),
+            });
+            let (Some(id), Some(seed)) = (a(2), seed) else { usage() };
             let case = cases::gen_case(id, seed);
             let res = sup::run_in_child(&case, true, 300);
             for l in &res.log {
